@@ -226,10 +226,25 @@ func runProperty(e *Engine, spec *PropSpec, tier string) *propResult {
 		thoroughTier = true
 	}
 	e.discharge(budget, 16)
+	ownedSet := map[*Obligation]bool{}
+	labelledFuncs := map[string]bool{}
 	for _, n := range e.oblOrder {
 		o := e.obls[n]
 		if spec.Own == nil || spec.Own(o) {
 			r.owned = append(r.owned, o)
+			ownedSet[o] = true
+			if o.Kind == "POST" && strings.Contains(o.Name, spec.ID+":") {
+				labelledFuncs[o.Func] = true
+			}
+		}
+	}
+	// a labelled postcondition is proved assuming the loop invariants of its function: those invariants
+	// belong to the property as well (a change that breaks the invariant must not hide behind the assumption)
+	for _, n := range e.oblOrder {
+		o := e.obls[n]
+		if o.Kind == "INV" && !ownedSet[o] && labelledFuncs[o.Func] {
+			r.owned = append(r.owned, o)
+			ownedSet[o] = true
 		}
 	}
 	if spec.Extra != nil {
